@@ -64,8 +64,11 @@ m("C09-revert-set-size", "apischema/cache.py",
   "        _cached.append(cached)\n", "")
 m("C09-setitem-no-reset", "apischema/cache.py",
   "        self.wrapped[key] = value\n        reset()\n", "        self.wrapped[key] = value\n")
-m("C09-serialization-settings-no-reset", "apischema/settings.py",
-  "    class serialization(metaclass=ResetCache):", "    class serialization:")
+# (dropping ResetCache from settings.serialization is an *equivalent* mutant: every attribute of that
+#  class is an lru key parameter of serialization_method_factory, so nothing can go stale)
+m("C09-settings-default-hooks-no-reset", "apischema/settings.py",
+  "        super().__setattr__(name, value)\n        cache.reset()\n",
+  "        super().__setattr__(name, value)\n        if not name.startswith(\"default_\"):\n            cache.reset()\n")
 m("C09-object-fields-plain-lru", "apischema/objects/getters.py",
   "@cache\ndef object_fields(", "@lru_cache()\ndef object_fields(")
 m("C09-reset-skips-when-key-present", "apischema/cache.py",
@@ -74,6 +77,9 @@ m("C09-reset-skips-when-key-present", "apischema/cache.py",
 m("C09-reset-clears-only-first-half", "apischema/cache.py",
   "    for cached in _cached:\n        cached.cache_clear()\n",
   "    for cached in _cached[: len(_cached) - 1]:\n        cached.cache_clear()\n")
+m("C09-reset-skips-first-wrapper", "apischema/cache.py",
+  "    for cached in _cached:\n        cached.cache_clear()\n",
+  "    for cached in _cached[1:]:\n        cached.cache_clear()\n")
 m("C09-settings-setattr-skips-equal", "apischema/settings.py",
   "        super().__setattr__(name, value)\n        cache.reset()\n",
   "        changed = self.__dict__.get(name, ...) is not value\n        super().__setattr__(name, value)\n        if changed and not isinstance(value, bool):\n            cache.reset()\n")
